@@ -90,6 +90,15 @@ def gen(rng, tier):
             second = ["P" + hx(sec), "P" + hx(b" ")]
             ops = ["M%d" % k, "P" + hx(d), "R"] + second + ["N"] + second
             out.append((line(32, rng.choice([0, 1]), ops), {"kind": "oom-reuse", "reuse": True}))
+    # a very long token (the parser's scratch buffer grows beyond 64 KiB), then an allocation fault armed across
+    # json_tokener_reset() (which must not need memory) and reuse
+    for big in ([70000] if tier == "quick" else [65535, 65536, 70000, 200000]):
+        for shape in (0, 1):
+            d = (b'"' + b"s" * big + b'"') if shape == 0 else (b"[" + b"7" * big + b"]")
+            for k in (0, 1):
+                second = ["P" + hx(b'["w", 1.5]'), "P" + hx(b" ")]
+                ops = ["P" + hx(d), "P" + hx(b" "), "M%d" % k, "R"] + second + ["R"] + second + ["N"] + second
+                out.append((line(32, 0, ops), {"kind": "oom-reset-bigtoken", "reuse": True}))
     return out
 
 
